@@ -264,6 +264,9 @@ func (c *Ctx) finish(verifDir string, seed int, wall float64, explanation string
 	fmt.Printf("ycheck property=%s tier=%s rules=%d obligations=%d discharged=%d known=%d violated=%d undecided=%d functions=%d wall=%.1fs\n",
 		c.Prop, c.Tier, len(c.Rules), len(c.Obs), nDis, nKnown, nViol, nUndec, len(c.funcs), wall)
 	violPath := filepath.Join(verifDir, "evidence", c.Prop+".violations.json")
+	for _, o := range undec {
+		fmt.Printf("  undecided %s %s at %s: %s\n", o.Rule, o.Construct, o.Pos, firstLines(o.Detail, 6))
+	}
 	if nViol > 0 {
 		for _, o := range viols {
 			fmt.Printf("  violated %s %s at %s: %s\n", o.Rule, o.Construct, o.Pos, o.Detail)
@@ -275,11 +278,16 @@ func (c *Ctx) finish(verifDir string, seed int, wall float64, explanation string
 	}
 	os.Remove(violPath)
 	if nUndec > 0 {
-		for _, o := range undec {
-			fmt.Printf("  undecided %s %s at %s: %s\n", o.Rule, o.Construct, o.Pos, o.Detail)
-		}
 		fmt.Printf("UNDECIDED property=%s (no verdict: %d obligations could not be decided)\n", c.Prop, nUndec)
 		return 2
 	}
 	return 0
+}
+
+func firstLines(s string, n int) string {
+	parts := strings.SplitN(s, "\n", n+1)
+	if len(parts) > n {
+		parts = parts[:n]
+	}
+	return strings.Join(parts, "\n")
 }
